@@ -13,11 +13,14 @@ Definition tab2 (t : list (list bool)) (i j : N) : bool :=
   nth (N.to_nat j) (nth (N.to_nat i) t []) false.
 Definition tab1 (t : list bool) (j : N) : bool := nth (N.to_nat j) t false.
 
-(* initial tree: per path 0 absent, 1 readable file, 2 directory; inode = path + 1 *)
+(* initial tree: per path 0 absent, 1 readable file, 2 directory, 3 file that
+   cannot be opened, 4 socket; inode = path + 1 *)
 Definition init_tree (init : list N) (p : path) : option node :=
   match nth (N.to_nat p) init 0 with
   | 1 => Some (File true (p + 1))
   | 2 => Some (Dir (p + 1))
+  | 3 => Some (File false (p + 1))
+  | 4 => Some (Sock (p + 1))
   | _ => None
   end.
 
@@ -46,6 +49,7 @@ Definition tree_code (s : state) (p : path) : N * N :=
   | Some (File true i) => (1, i)
   | Some (File false i) => (3, i)
   | Some (Dir i) => (2, i)
+  | Some (Sock i) => (4, i)
   end.
 Definition n2_eqb (a b : N * N) : bool := N.eqb (fst a) (fst b) && N.eqb (snd a) (snd b).
 
